@@ -5,6 +5,11 @@ import PdshVerif.Pcp.Multi
 import PdshVerif.Pcp.SessionLemmas
 import PdshVerif.Pcp.PacedTree
 import PdshVerif.Pcp.Refused
+import PdshVerif.Pcp.Mixed
+import PdshVerif.Pcp.MeetsSpec
+import PdshVerif.Pcp.Overwrite
+import PdshVerif.Pcp.Merge
+import PdshVerif.Pcp.Recopy
 
 /-! # C11  pdcp/rpdcp reproduce the source tree exactly on every target
 
@@ -21,6 +26,22 @@ write faults (`o.fsize = none`).  Times are in microseconds, the resolution of t
                         directory in which those names are not yet present, and every reply is a positive
                         acknowledgement.  By mutual structural induction on trees (`feed_tree`,
                         `feed_kids`) on top of the record-level lemmas `feed_T/C/D/E`.
+* `copy_meets_spec`  -- model refines spec: the file system `copy_roundtrip` describes passes `Spec.checkKids` -- the very
+                        function the check's oracle evaluates on the real destination -- without a discrepancy (names,
+                        structure, bytes; with -p modes and microsecond times), for the pair as repaired.
+* `existing_file_replaced`
+                     -- a regular file that already exists on the target, with any old contents, holds exactly the
+                        bytes sent afterwards (the `ftruncate` step: new size 0, a block multiple, old file barely or
+                        much longer); old mode kept, or with -p the mode sent; nothing else changes.
+* `copy_onto_existing`, `overwritten_exact`
+                     -- the destination already holds (an older version of) the tree: nodes of the same kind at any depth
+                        (`CompatKids`).  The receiver ends with `mergeKids`: existing regular files hold exactly the bytes
+                        sent, existing directories are entered (with -p re-moded, and re-timed after their entries), what is
+                        missing is created as in `copy_roundtrip`, what the source does not name stays; all replies positive
+                        (`feed_tree_merge`, Pcp/Merge.lean; generalises `feed_tree`: on fresh names `mergeKids = recvKids`).
+* `copy_twice`       -- copying the same sources again: what the first copy left is compatible with them
+                        (`compat_after_copy`), the second copy is acknowledged throughout and leaves every file with
+                        exactly the source's bytes.
 * `file_any_size`    -- the single-file case spelled out at the byte level: record + data + NUL, any
                         length (0, 1, ..., beyond several BUFSIZ blocks: `foldl_data` = blocks_concat).
 * `received_file`, `preserve_meta_file`
@@ -49,13 +70,33 @@ write faults (`o.fsize = none`).  Times are in microseconds, the resolution of t
                         streams, it ends with the same file system, one copy per target under `SRC.host`
                         (`recvKids_perm`: sibling trees under different names commute).
 
-Modelled, not proved: the sender's reaction to an error reply (it skips the data after a failed `C`
-record: `itemsBytes`; the correspondence compares real client streams only for all-positive replies
-and for write faults); the threads of the real rpdcp receiver are represented by sequential
+* `dir_mtime_after_entries`
+                     -- with -p a directory ends with the source's modification time although its entries were
+                        created after it: the receiver sets the time after it has populated the directory.
+* `error_isolated_session`
+                     -- the last clause of C11 for the INTERACTIVE client in its repaired form (it reads every reply:
+                        Pcp/Session.lean), for any mixture in any order of sources that arrive, regular files whose
+                        name is taken by a directory and directories whose name is taken by a regular file: client and
+                        receiver stay in step, exactly one error record per source that cannot be written, and the file
+                        system ends exactly as if those sources had not been named (induction `session_items`,
+                        Pcp/Mixed.lean).  Generalises `error_isolated_refused_dir` (one refused directory, first) and
+                        lifts `error_isolated_open` from the byte stream `itemsBytes` to the dialogue.
+* Pcp/Statics.lean   -- what K receivers of one process share besides the file system: the static objects and the
+                        process-wide calls of pcp_server.c, compared with the translation unit on every run.
+
+Modelled, not proved: the threads of the real rpdcp receiver are represented by sequential
 processing in an arbitrary order (assumption: the kernel serialises operations per path, and the
-targets' names are distinct, so the threads work on disjoint sub-trees).
-Not proved: a directory that cannot be created (finding F11-DIRFAIL-SCATTER: the statement is false),
-several targets of a forward copy (each runs this receiver on its own file system: C03/C09).
+targets' names are distinct, so the threads work on disjoint sub-trees); entries that cannot be written BELOW the
+top level of a copied tree can only exist inside directories that are already there (a merge in which the kinds
+DISAGREE somewhere down the tree): `copy_onto_existing` covers the merge when the kinds agree, `error_isolated_session`
+the disagreement at the top level; the disagreement deeper down is covered by the correspondence (pinned conflict
+cases at depth 2 and 3, session model `sess`) and by `error_isolated_open`/`copy_with_write_faults` at the byte level.
+A source that cannot be READ: the repaired client (da13fc3) checks every entry with access(2) while it expands the
+sources and ends before the first byte is sent (stated, not modelled: the model's trees are readable; pinned end-to-end
+case `unreadable` as uid 1000 and the four refused-source kinds).
+Not proved: several targets of a forward copy (each runs this receiver on its own file system: C03/C09).
+For the client AS FOUND a directory that cannot be created scatters its entries (finding F11-DIRFAIL-SCATTER, fixed
+in /repo: `dirfail_scatter_witness`).
 -/
 namespace PdshVerif.Props.C11
 open PdshVerif.Pcp PdshVerif.Gen
@@ -138,6 +179,114 @@ theorem copy_roundtrip (o : Opts) (hc : CntOk o) (hnf : o.fsize = none) (so : SO
   · rfl
   · exact h3.all_ack r hr
 
+/-- **The copy meets the specification** (model refines spec).  `Spec.checkKids` is the function the check's
+oracle evaluates on a snapshot of the REAL destination (`pdshmodel pcp spec11`): same kind, same bytes, for
+directories exactly the same entry names, recursively, and with -p the same twelve permission bits and the same
+modification time to the microsecond.  Under the hypotheses of `copy_roundtrip`, for the sender/receiver pair as
+repaired (`Faithful`: no write faults; with -p microseconds are sent and a created directory is chmod'ed), the
+file system the receiver ends with passes it WITHOUT A SINGLE DISCREPANCY, `listing` being the paths that exist
+afterwards.  (Mutual induction `check_tree`/`check_kids`, Pcp/MeetsSpec.lean.) -/
+theorem copy_meets_spec (o : Opts) (hc : CntOk o) (so : SOpts) (hp : so.preserve = o.preserve)
+    (hf : Faithful o so.subsec) (fs : FS) (D : Path) (srcs : List (Str × Tree)) (budget : Nat)
+    (hres : resolve fs o.cwd o.dest = some D) (hdir : fs.isDir D = true)
+    (hsrc : SrcsOk so srcs) (hb : o.dest.length + budget < PCP_PATH_MAX)
+    (hgood : GoodKids budget (namedSrcs so srcs))
+    (hfresh : ∀ n k, (n, k) ∈ namedSrcs so srcs → FreshBelow fs (D ++ [n]))
+    (listing : List Path) (hl : ∀ x, x ∈ listing ↔ (sink o fs (send so srcs)).1 x ≠ none) :
+    Spec.checkKids o.preserve (sink o fs (send so srcs)).1 listing D (namedSrcs so srcs) = [] := by
+  obtain ⟨h1, _⟩ := copy_roundtrip o hc hf.nofault so hp fs D srcs budget hres hdir hsrc hb hgood hfresh
+  apply check_kids o so.subsec hf (namedSrcs so srcs) budget fs D hgood hfresh
+  · intro n k _ x _
+    rw [h1]
+  · intro n k _ x _
+    exact hl x
+
+/-- **Copying onto a destination that already holds (an older version of) the tree.**  `dest` resolves to an
+existing directory `D`; at the names the sources are sent under there is nothing, or something OF THE SAME KIND,
+recursively (`CompatKids`: a regular file where the source has a regular file, a directory where it has a
+directory -- e.g. whatever an earlier copy left).  Then the receiver fed with the sender's stream ends with
+`mergeKids …`: every regular file of the source holds exactly the source's bytes whatever it held before
+(`merged_file_data`: the old tail is cut off), existing directories are entered (with -p re-moded and, after
+their entries, re-timed), missing nodes are created as in `copy_roundtrip`, entries the source does not name
+stay; and every reply is a positive acknowledgement.  (`feed_tree_merge`/`feed_kids_merge`, Pcp/Merge.lean; on names
+that are not present `mergeKids` is `recvKids`: `mergeKids_fresh`.) -/
+theorem copy_onto_existing (o : Opts) (hc : CntOk o) (hnf : o.fsize = none) (so : SOpts)
+    (hp : so.preserve = o.preserve) (fs : FS)
+    (D : Path) (srcs : List (Str × Tree)) (budget : Nat)
+    (hres : resolve fs o.cwd o.dest = some D) (hdir : fs.isDir D = true)
+    (hsrc : SrcsOk so srcs) (hb : o.dest.length + budget < PCP_PATH_MAX)
+    (hgood : GoodKids budget (namedSrcs so srcs))
+    (hcompat : CompatKids fs D (namedSrcs so srcs)) :
+    (sink o fs (send so srcs)).1 = mergeKids o so.subsec fs D (namedSrcs so srcs) ∧
+    (∀ r ∈ (sink o fs (send so srcs)).2.1, r = Reply.ack) ∧
+    (run o fs (send so srcs)).phase = .done := by
+  have hv : VerifyOk o fs := fun _ => ⟨D, hres, hdir⟩
+  have h0 : enter o (St.init fs) o.dest =
+      { St.init fs with out := [.ack],
+                        stack := [{ targ := o.dest, targisdir := true, setimes := false, mt := default, atm := default }],
+                        phase := .start } := by
+    rw [enter_ok (p := D) hv hres hdir]
+    rfl
+  have hat : AtDir o (enter o (St.init fs) o.dest)
+      { targ := o.dest, targisdir := true, setimes := false, mt := default, atm := default } [] D := by
+    rw [h0]
+    exact ⟨rfl, rfl, rfl, hres, hdir, hv, ⟨usecOk_zero _, usecOk_zero _⟩⟩
+  have hcompat' : CompatKids (enter o (St.init fs) o.dest).fs D (namedSrcs so srcs) := by
+    rw [h0]; exact hcompat
+  have hfed := feed_kids_merge hc hnf so.subsec (namedSrcs so srcs) budget _ _ [] D hat (fun e => by cases e) hb hgood
+    hcompat'
+  rw [← hp, ← send_eq so srcs hsrc] at hfed
+  generalize hst : (send so srcs).foldl (step o) (enter o (St.init fs) o.dest) = st' at hfed
+  obtain ⟨⟨f', hat', _, _⟩, hfs, _, rs, hrs, hrsa⟩ := hfed
+  have hfin : finish o st' = { st' with stack := [], phase := .done } := by
+    unfold finish
+    simp only [hat'.phase]
+    unfold leave
+    simp only [hat'.stack]
+    rfl
+  have hrun : run o fs (send so srcs) = { st' with stack := [], phase := .done } := by
+    unfold run; rw [hst, hfin]
+  refine ⟨?_, ?_, ?_⟩
+  · simp only [sink, hrun, hfs]
+    rw [h0]
+    rfl
+  · intro r hr
+    simp only [sink, hrun, hrs, List.mem_reverse, List.mem_append] at hr
+    rcases hr with hr | hr
+    · exact hrsa.all_ack r hr
+    · rw [h0] at hr
+      simpa using hr
+  · rw [hrun]
+
+/-- ... in which every regular file of the sources holds exactly the source's bytes, whatever was there -/
+theorem overwritten_exact (o : Opts) (hnf : o.fsize = none) (ss : Bool) (fs : FS) (q : Path)
+    (kids : List (Str × Tree)) (n : Str) (m t a : Nat) (d : Str) (hm : (n, Tree.file m t a d) ∈ kids)
+    (hd : kids.Pairwise (fun a b => a.1 ≠ b.1)) :
+    ∃ mo tm, mergeKids o ss fs q kids (q ++ [n]) = some (.file mo tm d) :=
+  merged_file_data o hnf ss fs q kids n m t a d hm hd
+
+/-- **Copying the same sources again.**  Under the hypotheses of `copy_roundtrip`, what the first copy leaves
+behind is compatible with the sources (`compat_after_copy`), so the second copy falls under `copy_onto_existing`:
+it is acknowledged record by record and every regular file holds exactly the source's bytes again
+(`overwritten_exact`). -/
+theorem copy_twice (o : Opts) (hc : CntOk o) (hnf : o.fsize = none) (so : SOpts)
+    (hp : so.preserve = o.preserve) (fs : FS)
+    (D : Path) (srcs : List (Str × Tree)) (budget : Nat)
+    (hres : resolve fs o.cwd o.dest = some D) (hdir : fs.isDir D = true)
+    (hsrc : SrcsOk so srcs) (hb : o.dest.length + budget < PCP_PATH_MAX)
+    (hgood : GoodKids budget (namedSrcs so srcs))
+    (hfresh : ∀ n k, (n, k) ∈ namedSrcs so srcs → FreshBelow fs (D ++ [n])) :
+    (sink o (sink o fs (send so srcs)).1 (send so srcs)).1 =
+      mergeKids o so.subsec (sink o fs (send so srcs)).1 D (namedSrcs so srcs) ∧
+    ∀ r ∈ (sink o (sink o fs (send so srcs)).1 (send so srcs)).2.1, r = Reply.ack := by
+  obtain ⟨h1, _, _, _, _, hmono⟩ := copy_with_write_faults o hc so hp fs D srcs budget hres hdir hsrc hb hgood hfresh
+  have hc1 : CompatKids (sink o fs (send so srcs)).1 D (namedSrcs so srcs) := by
+    rw [h1]
+    exact compat_after_copy o so.subsec _ budget fs D hgood hfresh
+  obtain ⟨a, b, _⟩ := copy_onto_existing o hc hnf so hp _ D srcs budget (resolve_mono hmono hres) (hmono _ hdir) hsrc hb
+    hgood hc1
+  exact ⟨a, b⟩
+
 /-- **One file of any size** at the byte level (`feed_C` re-stated): at a record boundary in a
 directory, `C<mode> <size> <name>\n` + the bytes + NUL create exactly that file, with two
 acknowledgements. -/
@@ -153,6 +302,25 @@ theorem file_any_size (o : Opts) (hc : CntOk o) (hnf : o.fsize = none) (st : St)
   have hfit : o.fitsB d.length = true := by simp [Opts.fitsB, hnf]
   rw [feed_C hc hat.phase hat.stack hat.isdir hat.res hat.dir hn hfresh hlen m d hsz hfit hat.us]
   simp [hns, set_self, recvFile]
+
+/-- **An existing regular file is replaced, not patched** (`feed_C_over`).  At a record boundary in a directory,
+the name `n` being taken by a regular file with ANY old contents `od` (shorter, one byte longer, blocks longer),
+`C<mode> <size> <name>\n` + the bytes + NUL leave exactly those bytes in it -- the final `ftruncate(ofd, size)`
+cuts the old tail off, for every new size including 0 and the multiples of the transfer block --, with the old mode
+or, with -p, the mode sent; nothing else changes (the parent directory is not even re-timed), two
+acknowledgements. -/
+theorem existing_file_replaced (o : Opts) (hc : CntOk o) (hnf : o.fsize = none) (st : St) (f : Frame)
+    (rest : List Frame) (q : Path) (hat : AtDir o st f rest q) (n : Str) (hn : GoodName n)
+    (om : Nat) (ot : Option Time) (od : Str) (hold : st.fs (q ++ [n]) = some (.file om ot od))
+    (hlen : f.targ.length + n.length + 1 < PCP_PATH_MAX) (m : Nat) (d : Str) (hsz : d.length < 2 ^ 63) :
+    let st' := (cRecord m d.length n ++ d ++ [0]).foldl (step o) st
+    st'.fs (q ++ [n]) = some (.file (overMode o om (m &&& RCP_MODEMASK)) (if f.setimes then some f.mt else none) d) ∧
+    (∀ x, x ≠ q ++ [n] → st'.fs x = st.fs x) ∧
+    st'.out = .ack :: .ack :: st.out ∧ st'.phase = .start := by
+  simp only
+  have hfit : o.fitsB d.length = true := by simp [Opts.fitsB, hnf]
+  rw [feed_C_over hc hat.phase hat.stack hat.isdir hat.res hat.dir hn hold hlen m d hsz hfit hat.us]
+  exact ⟨set_self _ _ _, fun x hx => set_other _ _ _ _ hx, rfl, rfl⟩
 
 /-! ## what arrives -/
 
@@ -243,6 +411,23 @@ theorem preserve_meta_dir_repaired (o : Opts) (hp : o.preserve = true) (hfix : o
       rw [MODEMASK_eq]; exact Nat.and_two_pow_sub_one_eq_mod m 12
     simp only [hp, ↓reduceIte, recvDirMode, hfix, Bool.and_self, hmask, Nat.mod_mod]
   · rw [hp] at h; cases h
+
+/-- **A directory's modification time survives its own entries** (-p).  Creating the entries of a directory
+refreshes its modification time (`FS.bumpDir`, as the kernel does), so the receiver must set the time AFTER it
+has populated the directory -- pcp_server.c calls `utimes` after the recursive `_sink` has returned, `recvTree`
+mirrors that order.  Whatever the directory holds (`sub`: any entries, any depth), wherever it stands among its
+siblings, it ends with the source's modification time. -/
+theorem dir_mtime_after_entries (o : Opts) (hp : o.preserve = true) (ss : Bool) (fs : FS) (q : Path)
+    (kids : List (Str × Tree)) (n : Str) (m t a : Nat) (sub : List (Str × Tree))
+    (hm : (n, Tree.dir m t a sub) ∈ kids) (hd : kids.Pairwise (fun a b => a.1 ≠ b.1)) :
+    ∃ md, recvKids o ss fs q kids (q ++ [n]) = some (.dir md (some (sentTime ss t))) := by
+  obtain ⟨fs0, h⟩ := recvKids_lookup o ss fs q kids n _ hm hd
+  rw [h]
+  rcases received_dir o ss fs0 q n m t a sub with h1 | ⟨h1, _⟩
+  · refine ⟨recvDirMode o fs0 q n m, ?_⟩
+    rw [h1]
+    simp [hp]
+  · rw [hp] at h1; cases h1
 
 /-- the hypotheses of `preserve_meta_dir` are satisfiable: mode 0755 below a 0755 parent -/
 example : (0o755 % 4096 < 1024) ∧ ((0o755 : Nat) &&& 0o2000 = 0) := by decide
@@ -460,6 +645,18 @@ example :
       have h3 : x ≠ [[119], [100]] := by intro e; subst e; simp at hl
       simp [h1, h2, h3])
   refine ⟨h.1, h.2, by decide +kernel⟩
+
+/-- `copy_meets_spec` on the same instance with the repaired receiver: no discrepancy; and the specification is
+not trivially satisfied -- the sender as found (whole seconds) leaves the sub-second modification times of
+`t` and `t/e` behind (finding F11-MTIME-SUBSEC, fixed in /repo) -/
+example :
+    Spec.checkKids true (sink { xo with dirChmod := true } xfs (send xso xsrcs)).1
+      [[], [[119]], [[119], [100]], [[119], [100], [116]], [[119], [100], [116], [101]]] [[119], [100]]
+      (namedSrcs xso xsrcs) = [] ∧
+    Spec.checkKids true (sink { xo with dirChmod := true } xfs (send { xso with subsec := false } xsrcs)).1
+      [[], [[119]], [[119], [100]], [[119], [100], [116]], [[119], [100], [116], [101]]] [[119], [100]]
+      (namedSrcs xso xsrcs) = [([[119], [100], [116]], .mtime), ([[119], [100], [116], [101]], .mtime)] := by
+  refine ⟨by decide +kernel, by decide +kernel⟩
 
 /-! ## the hypotheses of `reverse_roundtrip` are satisfiable -/
 
@@ -769,6 +966,72 @@ theorem error_isolated_refused_dir (o : Opts) (hc : CntOk o) (hnf : o.fsize = no
   · rw [faultsKids_none o hnf] at hrsa
     exact hrsa.all_ack
 
+/-- **`error_isolated` for the dialogue** (the last clause of C11, repaired client, any mixture of sources).
+The user names the sources `items`, in any order: trees that arrive (`SItem.good`), regular files whose name is
+taken by a directory on the target (`SItem.blockedFile`), directories whose name is taken by a regular file
+(`SItem.refusedDir`).  The client READS every reply and reacts (Pcp/Session.lean): after the error reply to a `C`
+record it sends neither data nor NUL, after the error reply to a `D` record it skips the directory's list elements
+and its leave-directory sentinel.  Then client and receiver stay in step through the whole list, the receiver
+consumes everything and ends at the top level, the file system is `recvKids … (sGoods so items)` -- EXACTLY as if
+the sources that cannot be written had not been named, so every other file is identical to its source
+(`received_file`, `received_dir` for every node, `no_other_entries`) and what was in the way is untouched -- and the
+replies are acknowledgements and exactly ONE error record per source that cannot be written (`sBad items`). -/
+theorem error_isolated_session (o : Opts) (hc : CntOk o) (hnf : o.fsize = none) (so : SOpts) (co : COpts)
+    (hco : co.skipRefused = true) (hp : so.preserve = o.preserve) (fs : FS) (D : Path) (items : List SItem)
+    (budget : Nat) (hres : resolve fs o.cwd o.dest = some D) (hdir : fs.isDir D = true)
+    (hb : o.dest.length + budget < PCP_PATH_MAX) (hok : SItemsOk so budget fs D items) :
+    (sessionEnd so co o fs (items.map SItem.src)).fs = recvKids o so.subsec fs D (sGoods so items) ∧
+    (∃ rs, (sessionEnd so co o fs (items.map SItem.src)).out.reverse = .ack :: rs ∧ RsI rs 0 (sBad items)) ∧
+    (sessionEnd so co o fs (items.map SItem.src)).phase = .done := by
+  have hv : VerifyOk o fs := fun _ => ⟨D, hres, hdir⟩
+  have h0 : enter o (St.init fs) o.dest =
+      { St.init fs with out := [.ack],
+                        stack := [{ targ := o.dest, targisdir := true, setimes := false, mt := default, atm := default }],
+                        phase := .start } := by
+    rw [enter_ok (p := D) hv hres hdir]
+    rfl
+  have hat : AtDir o (enter o (St.init fs) o.dest)
+      { targ := o.dest, targisdir := true, setimes := false, mt := default, atm := default } [] D := by
+    rw [h0]
+    exact ⟨rfl, rfl, rfl, hres, hdir, hv, ⟨usecOk_zero _, usecOk_zero _⟩⟩
+  have hfs0 : (enter o (St.init fs) o.dest).fs = fs := by rw [h0]; rfl
+  have hout0 : (enter o (St.init fs) o.dest).out = [.ack] := by rw [h0]
+  have hr := read_ack (s := { st := enter o (St.init fs) o.dest, sent := [], consumed := 0, failed := false,
+                              skip := 0, dead := false }) (old := []) rfl hout0
+  have hi : InSync ({ st := enter o (St.init fs) o.dest, sent := [], consumed := 0 + 1, failed := false,
+                      skip := 0, dead := false } : Sess) := ⟨rfl, rfl, by simp [hout0]⟩
+  obtain ⟨_, ⟨f2, hat2, _, _⟩, j3, rs, hout, hrs⟩ := session_items hc hnf so co hco hp budget [] D items
+    { st := enter o (St.init fs) o.dest, sent := [], consumed := 0 + 1, failed := false, skip := 0, dead := false }
+    _ hi hat (fun e => by cases e) hb (by show SItemsOk so budget (enter o (St.init fs) o.dest).fs D items; rw [hfs0]; exact hok)
+  have hsess : (session so co o fs (expandAll (items.map SItem.src))).st =
+      ((expandAll (items.map SItem.src)).foldl (clientStep so co o)
+        { st := enter o (St.init fs) o.dest, sent := [], consumed := 0 + 1, failed := false, skip := 0,
+          dead := false }).st := by
+    unfold session
+    dsimp only
+    rw [hr]
+    simp only [Bool.not_true, Bool.false_eq_true, if_false]
+  unfold sessionEnd
+  rw [hsess]
+  generalize ((expandAll (items.map SItem.src)).foldl (clientStep so co o)
+      { st := enter o (St.init fs) o.dest, sent := [], consumed := 0 + 1, failed := false, skip := 0,
+        dead := false }).st = st3 at hat2 j3 hout
+  have hfin : finish o st3 = { st3 with stack := [], phase := .done } := by
+    unfold finish
+    simp only [hat2.phase]
+    unfold leave
+    simp only [hat2.stack]
+    rfl
+  rw [hfin]
+  refine ⟨?_, ⟨rs.reverse, ?_, ?_⟩, rfl⟩
+  · show st3.fs = _
+    rw [j3, hfs0]
+  · show st3.out.reverse = _
+    rw [hout, hout0]
+    simp
+  · exact ⟨fun r hr => hrs.1 r (List.mem_reverse.1 hr), by rw [List.count_reverse]; exact hrs.2.1,
+      by rw [List.count_reverse]; exact hrs.2.2⟩
+
 /-- `/w/d` holds a regular FILE `t`: the directory `t` cannot be created -/
 def sfs : FS := fun p =>
   if p = [] then some (.dir 0o755 none)
@@ -791,6 +1054,92 @@ theorem dirfail_scatter_witness :
     ((sessionEnd sso ⟨true⟩ ro sfs ssrcs).fs [[119], [100], [101]]).isSome = false ∧
     (session sso ⟨true⟩ ro sfs (expandAll ssrcs)).sent = dRecord 0o755 [116] ∧
     (sessionEnd sso ⟨true⟩ ro sfs ssrcs).out.reverse = [.ack, .err .path] := by
+  decide +kernel
+
+/-- the hypotheses of `error_isolated_session` are satisfiable, with one source of each kind: in `/w/d` the name
+`f` is taken by a directory and `g` by a regular file; the user copies the file `f`, the tree `t` and the
+directory `g` -/
+def mfs : FS := fun p =>
+  if p = [] then some (.dir 0o755 none)
+  else if p = [[119]] then some (.dir 0o755 none)
+  else if p = [[119], [100]] then some (.dir 0o755 none)
+  else if p = [[119], [100], [102]] then some (.dir 0o755 none)
+  else if p = [[119], [100], [103]] then some (.file 0o644 none [90])
+  else none
+
+def mitems : List SItem :=
+  [.blockedFile [102] 0o644 0 0 [65, 66], .good [116] (.dir 0o755 0 0 [([101], .file 0o644 0 0 [88])]),
+   .refusedDir [103] 0o755 0 0 [([107], .file 0o600 0 0 [89])]]
+
+example :
+    (sessionEnd sso ⟨true⟩ ro mfs (mitems.map SItem.src)).fs [[119], [100], [116], [101]] = some (.file 0o644 none [88]) ∧
+    (sessionEnd sso ⟨true⟩ ro mfs (mitems.map SItem.src)).fs [[119], [100], [103]] = some (.file 0o644 none [90]) ∧
+    (sessionEnd sso ⟨true⟩ ro mfs (mitems.map SItem.src)).fs [[119], [100], [107]] = none ∧
+    (sessionEnd sso ⟨true⟩ ro mfs (mitems.map SItem.src)).out.reverse =
+      [.ack, .err .path, .ack, .ack, .ack, .ack, .err .path] := by
+  decide +kernel
+
+/-- ... and they are in the domain of `error_isolated_session`, whose conclusion is the run above -/
+example :
+    (sessionEnd sso ⟨true⟩ ro mfs (mitems.map SItem.src)).fs = recvKids ro true mfs [[119], [100]] (sGoods sso mitems) ∧
+    (∃ rs, (sessionEnd sso ⟨true⟩ ro mfs (mitems.map SItem.src)).out.reverse = .ack :: rs ∧ RsI rs 0 2) := by
+  have e102 : sentName sso [102] true = [102] := by decide +kernel
+  have e116 : sentName sso [116] true = [116] := by decide +kernel
+  have e103 : sentName sso [103] true = [103] := by decide +kernel
+  have h := error_isolated_session ro ⟨by decide, by decide⟩ rfl sso ⟨true⟩ rfl rfl mfs [[119], [100]] mitems 100
+    (by decide +kernel) (by decide +kernel) (by decide) (by
+      simp only [mitems, SItemsOk, e102, e116, e103, SItem.path, KidNamesOk, KidListOk, GoodTree, GoodKids]
+      refine ⟨Or.inl (by decide), goodName_single _ (by decide) (by decide) (by decide) (by decide), by decide, by decide,
+        by decide, by decide, ⟨0o755, none, by decide +kernel⟩,
+        Or.inl (by decide), ⟨by decide, trivial, trivial⟩,
+        ⟨goodName_single _ (by decide) (by decide) (by decide) (by decide), by decide, by decide, by decide,
+          ⟨goodName_single _ (by decide) (by decide) (by decide) (by decide), by decide, by decide, by decide, by decide⟩,
+          by simp, trivial⟩, ?_, ?_,
+        Or.inl (by decide), goodName_single _ (by decide) (by decide) (by decide) (by decide), by decide, by decide,
+        by decide, ⟨0o644, none, [90], by decide +kernel⟩, trivial⟩
+      · intro x hx
+        have hl := hx.length_le
+        simp only [List.length_append, List.length_cons, List.length_nil] at hl
+        unfold mfs
+        have h1 : x ≠ [] := by intro e; subst e; simp at hl
+        have h2 : x ≠ [[119]] := by intro e; subst e; simp at hl
+        have h3 : x ≠ [[119], [100]] := by intro e; subst e; simp at hl
+        have h4 : x ≠ [[119], [100], [102]] := by intro e; subst e; simp at hx
+        have h5 : x ≠ [[119], [100], [103]] := by intro e; subst e; simp at hx
+        simp [h1, h2, h3, h4, h5]
+      · intro it hit
+        simp only [List.mem_cons, List.not_mem_nil, or_false] at hit
+        subst hit
+        simp only [SItem.path, e103]
+        decide)
+  exact ⟨h.1, h.2.1⟩
+
+/-- `/w/d/f` holds three bytes; `C0600 1 f\nX\0` without -p leaves the one byte `X` and the old mode 0644 -/
+example :
+    (sink ro (fun p => if p = [[119], [100], [102]] then some (.file 0o644 none [90, 90, 90]) else xfs p)
+      [67, 48, 54, 48, 48, 32, 49, 32, 102, 10, 88, 0]).1 [[119], [100], [102]] = some (.file 0o644 none [88]) := by
+  decide +kernel
+
+/-- `/w/d/t` and `/w/d/t/e` are already there -- an older version of `e`, two bytes longer, other mode --: copying
+`t` again with -p replaces the contents, takes over mode and time, and every record is acknowledged
+(`copy_onto_existing` on a concrete instance) -/
+def efs : FS := fun p =>
+  if p = [[119], [100], [116]] then some (.dir 0o700 none)
+  else if p = [[119], [100], [116], [101]] then some (.file 0o600 none [90, 90, 90])
+  else xfs p
+
+example :
+    (sink xo efs (send xso xsrcs)).1 [[119], [100], [116], [101]] = some (.file 0o640 (some ⟨3000, 250⟩) [88]) ∧
+    (sink xo efs (send xso xsrcs)).1 [[119], [100], [116]] = some (.dir 0o750 (some ⟨1000, 7⟩)) ∧
+    (∀ r ∈ (sink xo efs (send xso xsrcs)).2.1, r = Reply.ack) := by
+  decide +kernel
+
+/-- `copy_twice` on the instance of `copy_roundtrip`'s example: the second copy of `t` is acknowledged throughout and
+`t/e` holds the source's byte, mode and time again -/
+example :
+    (sink xo (sink xo xfs (send xso xsrcs)).1 (send xso xsrcs)).1 [[119], [100], [116], [101]] =
+      some (.file 0o640 (some ⟨3000, 250⟩) [88]) ∧
+    (∀ r ∈ (sink xo (sink xo xfs (send xso xsrcs)).1 (send xso xsrcs)).2.1, r = Reply.ack) := by
   decide +kernel
 
 end PdshVerif.Props.C11
